@@ -234,6 +234,9 @@ func (n *sumNode) Next() (bool, error) {
 		n.currentValue = n.plan.Value()
 
 		sum := float64(0)
+		// Integer values are also summed as integers: a float64
+		// holds them exactly up to 2^53 only.
+		intSum := int64(0)
 
 		for _, source := range n.aggregateMapping {
 			child := n.currentValue.Fields[source.Index]
@@ -245,10 +248,13 @@ func (n *sumNode) Next() (bool, error) {
 					childProperty := childItem.Fields[source.ChildTarget.Index]
 					switch v := childProperty.(type) {
 					case int:
+						intSum += int64(v)
 						return value + float64(v)
 					case int64:
+						intSum += v
 						return value + float64(v)
 					case uint64:
+						intSum += int64(v)
 						return value + float64(v)
 					case float32:
 						return value + float64(v)
@@ -266,6 +272,7 @@ func (n *sumNode) Next() (bool, error) {
 					lessN[int64],
 					0,
 					func(childItem int64, value float64) float64 {
+						intSum += childItem
 						return value + float64(childItem)
 					},
 				)
@@ -280,6 +287,7 @@ func (n *sumNode) Next() (bool, error) {
 						if !childItem.HasValue() {
 							return value + 0
 						}
+						intSum += childItem.Value()
 						return value + float64(childItem.Value())
 					},
 				)
@@ -345,7 +353,7 @@ func (n *sumNode) Next() (bool, error) {
 		if n.isFloat {
 			typedSum = sum
 		} else {
-			typedSum = int64(sum)
+			typedSum = intSum
 		}
 		n.currentValue.Fields[n.virtualFieldIndex] = typedSum
 		passes, err := mapper.RunFilter(n.currentValue, n.aggregateFilter)
